@@ -37,6 +37,12 @@ class C05(Prop):
 
     def cases(self, rng, tier):
         ntab = 120 if tier == 'quick' else 1500
+        # equal keys spread over several chunks, with payload cells that cannot be compared natively (None / text / numbers)
+        for _ in range(20 if tier == 'quick' else 200):
+            rows = tuple((rng.choice([0, 1]), rng.choice([None, 'x', 3, 2.5, (1,)])) for _ in range(rng.choice([4, 5, 6])))
+            t = (('k', 'p'),) + rows
+            for bs in (1, 2, 3):
+                yield Case('sort', (bs, False, 'k', t), {'cache': rng.random() < 0.5})
         for _ in range(ntab):
             t = self._table(rng, tier)
             n = len(t) - 1
